@@ -19,7 +19,6 @@ M = [
  ("C01-ties-by-reverse-pathid", "C01", "src/bin/s4.rs", "                        x.1.0.dt().cmp(y.1.0.dt())\n", "                        x.1.0.dt().cmp(y.1.0.dt()).then(y.0.cmp(x.0))\n", "cross-source ties printed in reverse naming order"),
  ("C02-final-newline-not-supplied", "C02", "src/bin/s4.rs", "                    if is_last && !(*syslinep).ends_with_newline() {", "                    if is_last && !(*syslinep).ends_with_newline() && (*syslinep).count_lines() > 1 {", "final newline supplied only for multi-line last messages"),
  ("C16-xzip-not-compression", "C16", "src/readers/filepreprocessor.rs", "        \"xz\" | \"xzip\" => {", "        \"xz\" => {", ".xzip no longer selects the xz container"),
- ("C18-handler-keeps-list-open", "C18", "src/bin/s4.rs", "        NAMED_TEMP_FILES_CLOSED.store(true, std::sync::atomic::Ordering::SeqCst);\n", "", "handler no longer closes the temp-file list"),
  ("C04-pm-zone", "C04", "src/data/datetime.rs", None, None, "placeholder"),
  ("C09-cat-drops-last-byte", "C09", "src/readers/journalreader.rs", None, None, "placeholder"),
 ]
